@@ -23,6 +23,35 @@ def schatten_class(t):
     return MATRIX_NORM_CLASS.get(o[1], f"ord={o[1]!r}")
 
 
+EIG_CALLS = ("numpy.linalg.eigvalsh", "numpy.linalg.eigvals", "scipy.linalg.eigvalsh", "scipy.linalg.eigvals", "scipy.linalg.svdvals")
+
+
+def spectral_functionals(t):
+    """Classify how a term consumes a spectrum: 'sum-abs' (Schatten-1), 'single' (one extreme eigenvalue: Schatten-inf like),
+    'sum-sq' (Schatten-2).  Returns the set of classes found."""
+    out = set()
+    def is_spec(x):
+        return isinstance(x, tuple) and x and x[0] == "call" and (x[1] in EIG_CALLS or (x[1] in ("numpy.linalg.svd", "scipy.linalg.svd") and kwarg(x, "compute_uv") == ("c", False)))
+    for s_ in subterms(t):
+        if not isinstance(s_, tuple) or not s_:
+            continue
+        if s_[0] == "sub" and is_spec(s_[1]) and s_[2][0] in ("c", "neg"):
+            out.add("single")
+        if s_[0] == "call" and s_[1] in ("builtins.max", "builtins.min", "numpy.max", "numpy.min", "numpy.amax", "numpy.amin") and s_[2] and \
+                any(is_spec(y) for y in subterms(s_[2][0])) and not any(isinstance(y, tuple) and y and y[0] == "call" and y[1] in ("numpy.sum", "builtins.sum") for y in subterms(s_[2][0])):
+            out.add("single")
+        if s_[0] == "call" and s_[1] in ("numpy.sum", "builtins.sum") and s_[2]:
+            inner = s_[2][0]
+            if any(is_spec(y) for y in subterms(inner)):
+                if any(isinstance(y, tuple) and y and y[0] == "call" and y[1] in ("numpy.abs", "numpy.absolute", "builtins.abs") for y in subterms(inner)):
+                    out.add("sum-abs")
+                elif any(isinstance(y, tuple) and y and y[0] == "**" and y[2] == ("c", 2) for y in subterms(inner)):
+                    out.add("sum-sq")
+                elif is_spec(inner) and inner[1] in ("numpy.linalg.svd", "scipy.linalg.svd", "scipy.linalg.svdvals"):
+                    out.add("sum-abs")
+    return out
+
+
 def cov_check(ctx, f, params, key="result is unitarily invariant", skip=sdp_branch, rule="R-COV"):
     ct = CovTyper(ctx.model, f, params)
     r = ct.result_type(skip)
@@ -140,6 +169,19 @@ def run(ctx):  # noqa: C901
     def td_ok(t):
         return t[0] == "*" and len(t[1]) == 2 and ("c", Fraction(1, 2)) in t[1] and any(x[0] == "call" and str(x[1]).endswith("trace_norm") and _is_diff(dict(x[3])["rho"], "rho", "sigma") for x in t[1])
     formula(ctx, td, "trace distance == trace_norm(rho - sigma) / 2", td_ok, ("trace_norm",))
+    # whatever the spelling, the trace distance / Helstrom quantity is a Schatten-1 functional of rho - sigma
+    for f_, nm in ((td, "trace distance"), (hh, "Helstrom-Holevo quantity")):
+        for rn, facts, t in return_terms(m, f_, inline=True)[0]:
+            fun = spectral_functionals(t)
+            has1 = bool(calls_to(t, "trace_norm")) or any(schatten_class(c) == "1" for c in calls_to(t, "numpy.linalg.norm")) or "sum-abs" in fun
+            if has1:
+                ctx.ob("R-NORM", f_, f"{nm} is a Schatten-1 functional of the difference", True, "trace norm / sum of absolute eigenvalues", rn)
+            elif "single" in fun or "sum-sq" in fun or any(schatten_class(c) not in (None, "1") for c in calls_to(t, "numpy.linalg.norm")):
+                ctx.ob("R-NORM", f_, f"{nm} is a Schatten-1 functional of the difference", False,
+                       f"the result is built from {sorted(fun) or 'a non-nuclear norm'} of the spectrum (a single extreme eigenvalue / another Schatten class), not from the "
+                       "sum of absolute eigenvalues: correct for qubits and pure states only", rn)
+            else:
+                ctx.ob("R-NORM", f_, f"{nm} is a Schatten-1 functional of the difference", None, f"returns {show(t)[:80]}", rn, required=False)
     def hh_ok(t):
         return t[0] == "+" and len(t[1]) == 2 and ("c", Fraction(1, 2)) in t[1] and any(
             x[0] == "*" and ("c", Fraction(1, 4)) in x[1] and any(y[0] == "call" and str(y[1]).endswith("trace_norm") and _is_diff(dict(y[3])["rho"], "rho", "sigma") for y in x[1]) for x in t[1])
